@@ -1,5 +1,5 @@
 SPECIFICATION FairSpec
-CONSTANTS Threads <- T  Items <- W  Joins <- J  Scenarios <- Scn  FirstCloserOnly = FALSE
+CONSTANTS Threads <- T  Items <- W  Joins <- J  Scenarios <- Scn  FirstCloserOnly = TRUE
 INVARIANTS TerminalJoined
 PROPERTY Terminates
 CHECK_DEADLOCK TRUE
